@@ -265,7 +265,7 @@ def units(tier):
     if tier == "thorough":
         bases += [("fff", [2, 1], {"times": "partial"}), ("fef", [1, 1], {"emptyfile_vector": True}), ("fdff", [2, 1], {}),
                   ("fff", [1, 2], {"packcrc": True}), ("ff", [2], {"omit_numunpack": False})]
-    news = ["s", "ss", "sd", ""] if tier == "quick" else ["s", "ss", "sd", "ds", "sss", "", "d"]
+    news = ["s", "ss", "sd", "", "d"] if tier == "quick" else ["s", "ss", "sd", "ds", "sss", "", "d"]
     for (p, f, o) in bases:
         for nw in news:
             us.append(Unit("append[%s + %s]" % (RC.shape_name(p, f, o), nw or "nothing"), M, "append_step",
